@@ -238,6 +238,26 @@ func finalFormats(fail failFn, in *input) int {
 	return n
 }
 
+// finalVirtual: Tree-only and Tree-and-Directory format, without and with
+// decoys, through the real virtual build directory.
+func finalVirtual(fail failFn, in *input) int {
+	failed := false
+	f := func(fp, format string, args ...any) { failed = true; fail(fp, format, args...) }
+	n := 0
+	for _, format := range []int32{0, 2} {
+		for _, decoys := range []bool{false, true} {
+			v := *in
+			v.format, v.decoys = format, decoys
+			runVirtual(f, &v)
+			n++
+			if failed {
+				return n
+			}
+		}
+	}
+	return n
+}
+
 // finalFaults: fault-free plus every single fault position, for the Tree-only
 // and the Tree-and-Directory format.
 func finalFaults(fail failFn, in *input) int {
@@ -446,6 +466,21 @@ func TestMC(t *testing.T) {
 		menu: []thing{tXFile, tDir}, legacy: []string{"x", "../y", "b"},
 		depth: map[string]int{"quick": 6, "thorough": 6},
 		final: finalDecoys,
+	}))
+
+	// 6. The same oracles through the real virtualBuildDirectory over the
+	// real in-memory PrepopulatedDirectory with pool-backed files.
+	seqs = append(seqs, pathSeq(&pcfg{
+		name: "virtual-paths", wd: "a", paths: []string{"x", "../x", "./x", "x/y", ".", "b/..", "b//x"}, maxPaths: 2,
+		menu:  []thing{tFile, tXFile, tEmpty, tSymlink, tFifo, tDir, tDeep},
+		pres:  []*node{dirOf("a", dirOf("b", dirOf("k", newFile("K", true))))},
+		depth: map[string]int{"quick": 4, "thorough": 5},
+		final: finalVirtual,
+	}))
+	seqs = append(seqs, treeSeq(&tcfg{
+		name: "virtual-trees", slots: treeSlots(3, leaves, []string{"d", "e"}),
+		depth: map[string]int{"quick": 4, "thorough": 6},
+		final: finalVirtual, inputs: treeInputs,
 	}))
 
 	mc.Main(t, nil, seqs)
